@@ -606,6 +606,10 @@ class ExecBase:
             return self.for_unrolled(node, st, items)
         spec = self.loop_spec(node)
         seq = self.as_seq(st, itv)
+        if spec is None and self.config is not None and getattr(self.config, "unroll_iterators", None) and isinstance(itv, VRef) and isinstance(st.deref(itv), HObj):
+            # contract-wide policy (not tied to a loop ordinal): iterator objects of the repo are
+            # driven through their real __next__ until StopIteration, at most k steps
+            spec = LoopSpec(bounded=self.config.unroll_iterators)
         if seq is None and isinstance(itv, VRef) and isinstance(st.deref(itv), HObj) and spec is not None and spec.invariant is not None:
             h = st.deref(itv)
             if load.find_method(h.cls[0], h.cls[1], "__next__") is not None:
